@@ -66,12 +66,7 @@ Theorem C16_add_raster_samples_first_last : forall s mg ms grads g,
   (exists e, g = GExt e /\
      eg_first e = sumQ (map g_first (filter (fun g => same_time (g_delay g) cd) grads)) /\
      eg_last e = sumQ (map g_last (filter (fun g => same_time (g_dur g) (maxl (map g_dur grads))) grads))).
-Proof.
-  intros s mg ms grads g H Hok cd. split.
-  - exact (add_raster_path_sum_at_centres s mg ms grads g H Hok).
-  - destruct (add_raster_path_sum_at_centres_partial s mg ms grads g H) as (e & E & _ & _ & F & L).
-    exists e. split; [exact E|]. split; [exact F|exact L].
-Qed.
+Proof. exact add_raster_samples_first_last. Qed.
 Print Assumptions C16_add_raster_samples_first_last.
 
 (* Limits (maker level first; the add_gradients-level statements for the three paths follow):
